@@ -161,6 +161,8 @@ def grep_forbidden():
 
 
 def audit(ctx, theorems, imports):
+    if MISSING_THEOREMS:
+        raise BrokenCheck("property theorems listed for the audit are missing from the Properties files: %s" % MISSING_THEOREMS[:5])
     """#print axioms on every theorem; returns {name: [axioms]}. Raises BrokenCheck on any problem."""
     hits = grep_forbidden()
     if hits:
@@ -434,7 +436,13 @@ def theorems_in(relpath, names, namespace):
     if not os.path.exists(f):
         return []
     src = strip_comments(open(f).read())
+    for t in names:
+        if not re.search(r"\btheorem\s+%s\b" % re.escape(t), src):
+            MISSING_THEOREMS.append("%s.%s (%s)" % (namespace, t, relpath))     # a listed property theorem was dropped / renamed: the audit refuses to run
     return [namespace + "." + t for t in names if re.search(r"\btheorem\s+%s\b" % re.escape(t), src)]
+
+
+MISSING_THEOREMS = []
 
 
 def hexs(b):
